@@ -33,7 +33,7 @@ std::string DescribeChainOp(const Op& op)
     case OP_DELIVER: snprintf(b, sizeof b, "deliver_block(%s#%ld, force_processing=%ld, times=%ld)", op.arg(0) ? "any" : "recent", (long)op.arg(1), (long)op.arg(2), (long)op.arg(3)); break;
     case OP_HEADER: snprintf(b, sizeof b, "deliver_header(%s#%ld)", op.arg(0) ? "any" : "recent", (long)op.arg(1)); break;
     case OP_INVALIDATE: snprintf(b, sizeof b, "invalidateblock(%s#%ld)", op.arg(0) ? "any" : "recent", (long)op.arg(1)); break;
-    case OP_RECONSIDER: snprintf(b, sizeof b, "reconsiderblock(manual#%ld)", (long)op.arg(0)); break;
+    case OP_RECONSIDER: snprintf(b, sizeof b, "reconsiderblock(manual#%ld, %s#%ld)", (long)op.arg(0), op.a.size() > 1 ? (op.mod(1, 6) <= 2 ? "itself" : op.mod(1, 6) == 5 ? "descendant" : "ancestor") : "itself", (long)op.arg(2)); break;
     case OP_RESTART: snprintf(b, sizeof b, "restart(clean)"); break;
     case OP_FLUSH: snprintf(b, sizeof b, "flush(mode=%ld)", (long)op.arg(0)); break;
     case OP_CLOCK: snprintf(b, sizeof b, "clock += %lds", (long)op.arg(0)); break;
@@ -126,7 +126,7 @@ Plan GenChainPlan(uint64_t seed, Tier tier, const std::string& bias)
         case OP_DELIVER: op.a = {(int64_t)rng.below(2), (int64_t)rng.below(1000), (int64_t)(rng.chance(3, 4) ? 1 : 0), (int64_t)rng.range(1, 2)}; break;
         case OP_HEADER: op.a = {(int64_t)rng.below(2), (int64_t)rng.below(1000)}; break;
         case OP_INVALIDATE: op.a = {(int64_t)rng.below(2), (int64_t)rng.below(1000)}; break;
-        case OP_RECONSIDER: op.a = {(int64_t)rng.below(1000)}; break;
+        case OP_RECONSIDER: op.a = {(int64_t)rng.below(1000), (int64_t)rng.below(6), (int64_t)rng.below(1000)}; break;
         case OP_RESTART: break;
         case OP_FLUSH: op.a = {(int64_t)rng.below(4)}; break;
         case OP_CLOCK: op.a = {(int64_t)rng.skewed(1, 7200)}; break;
@@ -174,6 +174,38 @@ bool ChainSim::UnderManualInvalidation(int idx) const
     for (int m : manual_invalid)
         if (ref->IsAncestor(m, idx)) return true;
     return false;
+}
+
+bool ChainSim::UnderManualMaybe(int idx) const
+{
+    for (int m : manual_maybe)
+        if (ref->IsAncestor(m, idx)) return true;
+    return false;
+}
+
+// reconsiderblock(b) clears the failure mark of b, of every ancestor and of every descendant of b. Marks (definite or undecided) on
+// b's line are dropped; where a dropped mark sat on a strict ancestor X of b, the branches leaving the path X..parent(b) become undecided.
+void ChainSim::ModelReconsider(int b)
+{
+    std::vector<int> strict_anc_marks;
+    for (auto* set : {&manual_invalid, &manual_maybe}) {
+        for (auto it = set->begin(); it != set->end();) {
+            const int m = *it;
+            if (m == b || ref->IsAncestor(b, m)) { it = set->erase(it); continue; }
+            if (ref->IsAncestor(m, b)) { strict_anc_marks.push_back(m); it = set->erase(it); continue; }
+            ++it;
+        }
+    }
+    for (int x : strict_anc_marks) {
+        // path x .. parent(b); children of path blocks that are not themselves on the path to b
+        for (int c = 1; c < (int)ref->blocks.size(); ++c) {
+            const int par = ref->blocks[c].parent;
+            if (par < 0 || c == b) continue;
+            const bool parent_on_path = (par == x || ref->IsAncestor(x, par)) && ref->IsAncestor(par, b) && par != b;
+            if (!parent_on_path || ref->IsAncestor(c, b)) continue;
+            if ((delivered[c] || header_given[c]) && !UnderManualInvalidation(c)) manual_maybe.insert(c);
+        }
+    }
 }
 
 static std::string Hx(const uint256& h) { return h.ToString().substr(0, 10); }
@@ -464,7 +496,7 @@ void ChainSim::Deliver(int idx, bool force)
         // A model-VALID block that reached BlockChecked must not be reported invalid.
         const auto rr = res.verdict->result;
         const bool not_a_validity_verdict = rr == BlockValidationResult::BLOCK_MISSING_PREV || rr == BlockValidationResult::BLOCK_TIME_FUTURE || rr == BlockValidationResult::BLOCK_HEADER_LOW_WORK;
-        if (B.verdict == Verdict::VALID && !UnderManualInvalidation(idx) && !not_a_validity_verdict)
+        if (B.verdict == Verdict::VALID && !UnderManualInvalidation(idx) && !UnderManualMaybe(idx) && !not_a_validity_verdict)
             ctx.failf("valid-block-rejected", "block #%d (h=%d, defect=%s) is valid per the model but the node reports %s", idx, B.height, B.label.defect.c_str(), res.verdict->reason.c_str());
         if (cfg.check_reject_leaves_state && node->TipHash() != tip_before) {
             // legal only if another (stored) block became the best valid tip; CheckAll decides legality of the new tip
@@ -526,7 +558,7 @@ void ChainSim::CheckAll(const char* where)
         };
         for (int i = 1; i < (int)ref->blocks.size(); ++i) {
             const RefBlock& B = ref->blocks[i];
-            if (B.verdict != Verdict::VALID || UnderManualInvalidation(i)) continue;
+            if (B.verdict != Verdict::VALID || UnderManualInvalidation(i) || UnderManualMaybe(i)) continue;
             const CBlockIndex* pi = bm.LookupBlockIndex(B.hash);
             if (pi && (pi->nStatus & BLOCK_FAILED_VALID))
                 ctx.failf("valid-block-marked-failed", "%s: block #%d (h=%d) is valid per the model and not manually invalidated, but its index entry carries a failure flag", where, i, B.height);
@@ -604,6 +636,8 @@ void ChainSim::ExecOp(const Op& op)
         bool related = false;
         for (int m : manual_invalid)
             if (ref->IsAncestor(m, idx) || ref->IsAncestor(idx, m)) related = true;
+        for (int m : manual_maybe)
+            if (ref->IsAncestor(m, idx) || ref->IsAncestor(idx, m)) related = true;
         if (related) break;
         CBlockIndex* pi = WITH_LOCK(cs_main, return node->cm().m_blockman.LookupBlockIndex(ref->blocks[idx].hash));
         if (!pi) break;
@@ -623,7 +657,20 @@ void ChainSim::ExecOp(const Op& op)
         if (manual_invalid.empty()) break;
         auto it = manual_invalid.begin();
         std::advance(it, op.mod(0, manual_invalid.size()));
-        int idx = *it;
+        const int x = *it;
+        // reconsiderblock clears the named block, its ancestors and its descendants: name the invalidated block itself (half of the
+        // time), one of its ancestors, or one of its descendants the node knows (possibly only by header)
+        int idx = x;
+        const int mode = op.a.size() > 1 ? (int)op.mod(1, 6) : 0;
+        if (mode == 3 || mode == 4) {
+            int up = 1 + (int)op.mod(2, mode == 3 ? 2 : 12);
+            for (; up > 0 && ref->blocks[idx].parent > 0; --up) idx = ref->blocks[idx].parent;
+        } else if (mode == 5) {
+            std::vector<int> desc;
+            for (int c = 1; c < (int)ref->blocks.size(); ++c)
+                if (c != x && ref->IsAncestor(x, c) && (delivered[c] || header_given[c])) desc.push_back(c);
+            if (!desc.empty()) idx = desc[op.mod(2, desc.size())];
+        }
         CBlockIndex* pi = WITH_LOCK(cs_main, return node->cm().m_blockman.LookupBlockIndex(ref->blocks[idx].hash));
         if (!pi) break;
         {
@@ -634,9 +681,10 @@ void ChainSim::ExecOp(const Op& op)
         BlockValidationState st;
         node->cs().ActivateBestChain(st);
         node->DrainSignals();
-        manual_invalid.erase(idx);
+        ModelReconsider(idx);
         ctx.probe("reconsiderblock");
-        ctx.evf("reconsider #%d tip=%s h=%d", idx, Hx(node->TipHash()).c_str(), node->Height());
+        if (idx != x) ctx.probe(ref->IsAncestor(idx, x) ? "reconsider_via_ancestor" : "reconsider_via_descendant");
+        ctx.evf("reconsider #%d (invalidated #%d) tip=%s h=%d", idx, x, Hx(node->TipHash()).c_str(), node->Height());
         break;
     }
     case OP_RESTART: {
